@@ -5,9 +5,10 @@ import os
 import common as C
 import c03
 
-PROP_FILES = ["Props/C04.v", "Props/C04Text.v"]
+PROP_FILES = ["Props/C04.v", "Props/C04Text.v", "Props/C04Utf8.v"]
 OBLIG_FILES = ["Oblig/C04Obl.v", "Oblig/C03Obl.v", "Model/TamperFacts.v", "Model/TruncFacts.v", "Model/ArithFacts.v", "Model/ArithTable.v",
-               "Oblig/C04TextObl.v", "Model/TamperTextFacts.v", "Model/TamperTextLift.v", "Model/TruncBytes.v", "Model/TruncCtl.v"]
+               "Oblig/C04TextObl.v", "Model/TamperTextFacts.v", "Model/TamperTextLift.v", "Model/TruncBytes.v", "Model/TruncCtl.v",
+               "Oblig/C04Utf8Obl.v", "Model/Utf8Prefix.v", "Model/TruncUtf8Facts.v"]
 
 # perturbation kinds of harness/internal/arith/perturb.go that change exactly one protected field
 PROTECTED_KINDS = "0,1,2,3,4,5,6,8,9,10,12,13,20,21,22,23,24"
@@ -105,13 +106,80 @@ def text_correspondence(ctx):
         pass
 
 
+def utf8_correspondence(ctx):
+    """The UTF-8 truncation statements (Props/C04Utf8.v; coq/Model/TruncUtf8.v extracted): valid files
+    WITH multi-byte characters (2-byte characters from the generator, 2/3/4-byte characters spliced into
+    the last columns of the file header and of the file control record), LF and CRLF, cut at every byte
+    offset inside a multi-byte character, at the character boundaries, at every offset of the file control
+    record and at a stride elsewhere: extracted text model vs Reader.Read + Validate ("A <skeleton>" / "R");
+    the characters bufio.ScanRunes yields on every byte prefix of random well-formed strings vs the model's
+    chars and its closed form; the closed form of the lines of a cut record."""
+    ok, out = C.build_ocaml("c04x")
+    ctx.log("ocaml c04x", out[-3000:])
+    if not ok:
+        ctx.diag.append("extracted UTF-8 truncation model does not build: " + out[-600:])
+        return
+    d = os.path.join(ctx.rundir, "corrutf8")
+    os.makedirs(d, exist_ok=True)
+    rc, out = C.sh([os.path.join(C.BIN, "c04x"), "corr", "-out", d, "-files", str(ctx.scale(12, 96)),
+                    "-stride", str(ctx.scale(37, 7)), "-strings", str(ctx.scale(100, 600))], timeout=3000)
+    ctx.log("corr utf8", out[-2500:])
+    drv = os.path.join(C.BUILD, "ocaml", "c04x", "driver")
+    if rc != 0 or not os.path.exists(drv):
+        ctx.diag.append("UTF-8 truncation correspondence could not run: " + out[-300:])
+        return
+    mp, ip, cp = os.path.join(d, "model.txt"), os.path.join(d, "impl.txt"), os.path.join(d, "cases.txt")
+    rc2, out2 = C.sh("%s %s > %s" % (drv, cp, mp), timeout=3000)
+    if rc2 != 0:
+        ctx.diag.append("extracted UTF-8 truncation model crashed: " + out2[-300:])
+    label = "utf-8 truncation: text model vs Read+Validate, chars vs ScanRunes"
+    ctx.compare(label, mp, ip, cp)
+    # the property itself on the implementation's observations: a truncated text that Read+Validate
+    # accept must carry the protected fields of the text it was cut from
+    try:
+        impl = open(ip).read().splitlines()
+        desc = open(os.path.join(d, "desc.txt")).read().splitlines()
+        cases = open(cp).read().splitlines()
+        orig = {}
+        for k in range(min(len(impl), len(desc))):
+            if desc[k].endswith(": original, LF") or desc[k].endswith(": original, CRLF"):
+                orig[desc[k].rsplit(": original", 1)[0]] = (impl[k], cases[k])
+        checked = bad = 0
+        for k in range(min(len(impl), len(desc))):
+            if ": truncate " in desc[k] and impl[k].startswith("A"):
+                key = desc[k].split(": truncate ", 1)[0]
+                o = orig.get(key) or orig.get(key.split(", file ", 1)[0])
+                if o is None:
+                    continue
+                checked += 1
+                if o[0] != impl[k]:
+                    bad += 1
+                    ctx.fails.append({"kind": "fail", "key": "truncate-utf8:accepted-as-different-file",
+                                      "what": "a truncated text is accepted with protected fields that differ from the original's: " + desc[k],
+                                      "input": {"mode": "utf8", "description": desc[k], "text_hex": cases[k][2:], "original_hex": o[1][2:],
+                                                "accepted": impl[k], "original": o[0]}})
+        ctx.cov["correspondence"][label]["accepted_truncations_checked_against_original"] = checked
+        ctx.cov["correspondence"][label]["accepted_as_different_file"] = bad
+    except (OSError, KeyError, IndexError):
+        pass
+    try:
+        dist = {}
+        for line in out.splitlines():
+            if ": " in line:
+                k, v = line.rsplit(": ", 1)
+                dist[k] = int(v)
+        ctx.cov["correspondence"][label]["distribution"] = dist
+    except (ValueError, KeyError):
+        pass
+
+
 def run(ctx):
     ctx.search = search
     ctx.trusted += ["tables emitter translator/tables.go and verif hook verif_export_c03.go (shared with C03)",
                     "column positions of the protected fields per record type in harness/cmd/c04 and cmd/c04text (checked against the reader by the oracle itself: a wrong position would tamper an unprotected column and be accepted); the model's own table (Model/TamperText.v protected_columns) is not trusted: pcol_ok by reflection over Gen/Layouts.v",
                     "extraction of text_verdict (ocaml/c04text) and the skeleton encoder of harness/internal/arith"]
     ctx.assumptions += ["theorems are about the arithmetic skeleton (Model/Arith.v, same model as C03) of the file re-parsed through the regenerated layouts (Model/TamperText.v skel), the framing model of C01 (Codec/Framing.v) and the structural reader (Codec/FileStruct.v)",
-                        "byte-offset truncation theorem: record lines of 94 ASCII characters (C04_truncation_bytes_partial); a cut inside a multi-byte character is covered by the exhaustive oracle only",
+                        "byte-offset truncation theorem (C04_truncation_bytes, Props/C04Utf8.v): record lines of 94 characters of well-formed UTF-8; the input is decoded as UTF-8 (bufio.ScanRunes on the raw bytes: x/net charset sniffing picks UTF-8 when the first 1024 bytes hold a non-ASCII character and are valid UTF-8 - the generator puts one into the file header; a file whose first non-ASCII byte comes later is re-decoded as windows-1252, C01 known finding, outside this model)",
                         "numeric protected columns: written value below max_int64 (strconv.Atoi clamps on overflow; relevant for the 20-digit ADV totals only)",
                         "entry amount theorem for IAT/ADV batches and the routing number theorem carry the side conditions of C03 (codes_regular, 8-digit routing numbers)",
                         "the file control's block count is not protected by the library and is excluded (as in the property text)"]
@@ -119,6 +187,7 @@ def run(ctx):
         return
     memory_tamper(ctx)
     text_correspondence(ctx)
+    utf8_correspondence(ctx)
     summ = oracle(ctx, ctx.scale(52, 520), ctx.scale(3, 40))
     ctx.add_summary(summ, "text tamper / truncation oracle")
     if summ:
@@ -138,6 +207,11 @@ def replay(path):
     except (OSError, ValueError):
         doc = {}
     inp = doc.get("input") or {}
+    if inp.get("mode") == "utf8":
+        print(inp.get("description"))
+        rc, out = C.sh([os.path.join(C.BIN, "c04x"), "replay", path], timeout=600)
+        print(out)
+        return 1 if rc != 0 else 0
     if inp.get("mode") == "memory":
         print("in-memory tamper accepted by every batch's Validate() and File.Validate():")
         print(inp.get("description"))
